@@ -30,6 +30,8 @@ type Config struct {
 	// fullSyncOnStart or validateOnStart they must reach the destination.
 	Pre    []int `json:"pre,omitempty"`
 	PreDst []int `json:"preDst,omitempty"`
+	// DstOnly: blobs the destination holds and the source does not
+	DstOnly []int `json:"dstOnly,omitempty"`
 	// Dests: 2 = a second sync handler (same source, destination "dst2",
 	// queue "queue2", no faults of its own) is constructed concurrently with
 	// the first one in every generation; every acknowledged upload must
@@ -141,6 +143,36 @@ func gen(tier string, run int, r *simcore.Rand) *harness.Plan {
 		}
 	}
 
+	// One run in 25: validation over a shard in which source and destination
+	// enumerations interleave: three blobs whose refs share the hash name and
+	// the first two digest digits (one validation shard), the first and the
+	// last only in the source, the middle one only at the destination. No
+	// faults: the two source blobs must be found missing and delivered.
+	crafted := false
+	if cfg.Ctor == "config" && r.Intn(25) == 0 {
+		byShard := map[string][]int{}
+		var cand []sim.BlobSpec
+		for k := 0; k < 400 && !crafted; k++ {
+			sp := sim.BlobSpec{Size: 20 + k%13, Hash: "sha224", Kind: "raw", Salt: r.Uint64()}
+			ref := sim.Materialise(sp).Ref.String()
+			shard := ref[:len("sha224-")+2]
+			cand = append(cand, sp)
+			byShard[shard] = append(byShard[shard], len(cand)-1)
+			if ix := byShard[shard]; len(ix) == 3 {
+				trio := []sim.BlobSpec{cand[ix[0]], cand[ix[1]], cand[ix[2]]}
+				sort.Slice(trio, func(a, b int) bool {
+					return sim.Materialise(trio[a]).Ref.String() < sim.Materialise(trio[b]).Ref.String()
+				})
+				base := len(cfg.Blobs)
+				cfg.Blobs = append(cfg.Blobs, trio...)
+				cfg.Pre = append(cfg.Pre, base, base+2)
+				cfg.DstOnly = append(cfg.DstOnly, base+1)
+				cfg.Validate, cfg.FullSync, cfg.BlockFull = true, false, false
+				crafted = true
+			}
+		}
+	}
+
 	nRestarts := []int{0, 0, 1, 1, 1, 2, 2, 3}[r.Intn(8)]
 	if cfg.Ctor == "new" {
 		nRestarts = 0
@@ -228,9 +260,9 @@ func gen(tier string, run int, r *simcore.Rand) *harness.Plan {
 			faults = append(faults, f)
 		}
 	}
-	if !r.Bool(0.08) {
+	if !r.Bool(0.08) && !crafted {
 		add("src", "Fetch", []string{sim.FErr, sim.FShortRead, sim.FCorrupt, sim.FWrongSize}, rate())
-		add("dst", "ReceiveBlob", []string{sim.FErr, sim.FErrAfter, sim.FWrongSize, sim.FSlow}, rate())
+		add("dst", "ReceiveBlob", []string{sim.FErr, sim.FErrAfter, sim.FWrongSize, sim.FSlow, sim.FErrNoEnt}, rate())
 		// the source refusing an upload: that upload is not acknowledged
 		add("src", "ReceiveBlob", []string{sim.FErr, sim.FErrAfter}, []float64{0, 0, 0.1, 0.2}[r.Intn(4)])
 		if r.Bool(0.15) {
@@ -238,7 +270,7 @@ func gen(tier string, run int, r *simcore.Rand) *harness.Plan {
 			faults = append(faults, sim.Fault{Op: faultOp, Seam: "dst", Method: "ReceiveBlob", K: r.Range(1, 5), Kind: sim.FErr, Burst: r.Range(5, 25)})
 		}
 	}
-	if mode == "queuefaults" {
+	if mode == "queuefaults" && !crafted {
 		p := []float64{0.1, 0.3, 0.6}[r.Intn(3)]
 		add("queue", "Set", []string{sim.FErr, sim.FErrAfter}, p)
 		add("queue", "Delete", []string{sim.FErr, sim.FErrAfter}, p)
